@@ -4,9 +4,9 @@ import re
 
 from .. import poly
 from ..poly import Poly
-from ..interp import Arr, Pose, sym_pose, diff_at_zero, Unsupported
+from ..interp import Arr, Pose, sym_pose, diff_at_zero, Unsupported, POSE_LEN
 from ..algebra import (POSES, CDIM, POINT_OF, run_obligation, run_tasks, record, ObFail, require_same, nterms,
-                       delta_vec, zero_hook, arr_diff_report, snapshot, scribble)
+                       delta_vec, zero_hook, arr_diff_report, snapshot, scribble, free_increment_columns, columns)
 
 LEVEL = "proof"
 
@@ -68,9 +68,20 @@ def obligation(cls, method):
                 got = it.call_method(a, method, arg)
             if not isinstance(got, Arr):
                 raise ObFail("method returns %r, not an array" % (got,))
+            full_shape = list(got.shape)
+            if op == "boxplus":
+                free = free_increment_columns(names)
+                if len(free) < len(names):
+                    if not free or got.ndim != 2 or got.shape != exp.shape:
+                        return dict(shape=list(got.shape), terms=0, mode="the increment is zero on this path (value-level continuity is C09)")
+                    got, exp = columns(got, free), columns(exp, free)
             require_same(got, exp, "%s.%s is not the derivative of %s w.r.t. %s" % (cls, method, op, wrt))
-            return dict(shape=list(got.shape), terms=nterms(got), mode="ambient derivative (pure in the differentiated operand)")
-        hook = zero_hook(operand_names("d", CDIM[cls])) if op == "boxplus" else None
+            return dict(shape=full_shape, terms=nterms(got), mode="ambient derivative (pure in the differentiated operand)")
+        if op == "boxplus":
+            hook = zero_hook(operand_names("d", CDIM[cls]), generic=True)
+        else:
+            wn = {"self": ("a", cls), "other": ("b", cls), "point": ("pt", POINT_OF[cls])}[wrt]
+            hook = zero_hook(operand_names(wn[0], POSE_LEN[wn[1]]), generic="everywhere")
         return run_obligation(pkg, fn, hook=hook, divisors=lambda name: True)
 
     def tangent(pkg):
@@ -96,13 +107,28 @@ def obligation(cls, method):
                 res, arg = it.call_method(aa, "inverse", []), []
             vals = res.data[:c] if compact else res.data
             exp = Arr([[diff_at_zero(v, n, names) for n in names] for v in vals], 2)
-            got = it.dot(it.call_method(a, method, arg), it.call_method(base, "jacobian_boxplus", []), None)
+            raw = it.call_method(a, method, arg)
+            got = it.dot(raw, it.call_method(base, "jacobian_boxplus", []), None)
+            free = free_increment_columns(names)
+            if len(free) < len(names):
+                if not free or not isinstance(got, Arr) or got.ndim != 2 or got.shape != exp.shape:
+                    return dict(shape=list(raw.shape) if isinstance(raw, Arr) else None, terms=0, mode="the increment is zero on this path")
+                got, exp = columns(got, free), columns(exp, free)
             require_same(got, exp, "%s.%s chained with jacobian_boxplus is not the derivative of %s along the manifold" % (cls, method, op))
-            return dict(shape=list(got.shape), terms=nterms(got), mode="derivative along the manifold (chained with jacobian_boxplus)")
-        return run_obligation(pkg, fn, hook=zero_hook(operand_names("d", CDIM[POINT_OF[cls] if wrt == "point" else cls])), divisors=lambda name: True)
+            return dict(shape=list(raw.shape) if isinstance(raw, Arr) else None, terms=nterms(got), mode="derivative along the manifold (chained with jacobian_boxplus)")
+        return run_obligation(pkg, fn, hook=zero_hook(operand_names("d", CDIM[POINT_OF[cls] if wrt == "point" else cls]), generic=True), divisors=lambda name: True)
 
     def run(pkg):
         r = strict(pkg)
+        if r["status"] == "error" and op != "boxplus":
+            # the ambient identity is outside the translated subset (e.g. the method renormalises a copy: a quotient by |q|, which
+            # is 1 on the manifold): decide the manifold-level identity instead
+            poly.reset()
+            r2 = tangent(pkg)
+            if r2["status"] in ("ok", "violation"):
+                r2.setdefault("stats", {})["note"] = "ambient identity undecided (%s); decided along the manifold" % r["detail"][:120]
+                return r2
+            return r
         if r["status"] == "violation" and op != "boxplus":
             poly.reset()
             r2 = tangent(pkg)
@@ -130,6 +156,17 @@ def stale_state_obligation(cls):
             require_same(r2, seen, "%s.%s: after a caller modified the matrix returned by an earlier call, the method returns a "
                                    "different matrix (it hands out shared storage instead of a new array)" % (cls, m))
             scribble(r2)
+        # a result that a caller keeps does not change when the same or a sibling method is called on another pose
+        c = sym_pose(cls, "c", unit=True)
+        kept = []
+        for m, (op, wrt, compact) in METHODS.items():
+            r1 = it.call_method(a, m, args[op])
+            kept.append((m, r1, snapshot(r1)))
+        for m, (op, wrt, compact) in METHODS.items():
+            it.call_method(c, m, args[op])
+        for m, r1, seen in kept:
+            require_same(r1, seen, "%s.%s: the matrix returned earlier changed when Jacobian methods were called on another pose "
+                                   "(results share storage)" % (cls, m))
         a2 = sym_pose(cls, "a2", unit=True)
         a.data[:] = list(a2.data)
         for m, (op, wrt, compact) in METHODS.items():
